@@ -175,6 +175,17 @@ class ToImageStack(Transform[Tree, npt.NDArray[np.uint8]]):
 
         xmin, ymin, zmin = _tp3f(coord_min + offset)
         xmax, ymax, zmax = _tp3f(coord_max)
+
+        # The sampler panics when an upper bound falls (within rounding) on a
+        # voxel center, e.g. resolution 0.4 and an odd extent. Count the
+        # centers below the bound ourselves and move the bound half a stride
+        # beyond the last one, it selects the same voxels.
+        def last(vmin: float, vmax: float, step: float) -> float:
+            n = int(np.ceil((vmax - vmin) / step - 1e-6))
+            return vmin + (n - 0.5) * step if n > 0 else vmax
+
+        xmax = last(xmin, xmax, float(stride[0]))
+        ymax = last(ymin, ymax, float(stride[1]))
         z = zmin
         while z < zmax:
             yield RangeSampler(
